@@ -30,12 +30,13 @@ type Obligation struct {
 	Detail string // human readable: what is being proved
 
 	// results
-	Status  string // "unsat" (discharged) | "trivial" | "sat" | "unknown" | "timeout" | "error"
-	Backend string
-	Seconds float64
-	Output  string
-	Frame   bool // decided by the frame engine, not by SMT
-	Canary  bool // vacuity canary: the goal is false, the obligation must NOT be discharged
+	Status   string // "unsat" (discharged) | "trivial" | "sat" | "unknown" | "timeout" | "error"
+	Backend  string
+	Seconds  float64
+	FirstTry string `json:"-"`
+	Output   string
+	Frame    bool // decided by the frame engine, not by SMT
+	Canary   bool // vacuity canary: the goal is false, the obligation must NOT be discharged
 }
 
 func (o *Obligation) Discharged() bool { return o.Status == "unsat" || o.Status == "trivial" }
@@ -149,6 +150,7 @@ type solveCfg struct {
 	needTwo  bool // thorough: record agreement
 	scratch  string
 	parallel int
+	retried  bool
 }
 
 func runOne(ctx context.Context, sp solverSpec, body string, cfg *solveCfg, id int) (string, string, float64) {
@@ -217,9 +219,9 @@ func discharge(o *Obligation, cfg *solveCfg) {
 	ctx, cancel := context.WithCancel(context.Background())
 	defer cancel()
 	type res struct {
-		sp           string
-		status, out  string
-		dt           float64
+		sp          string
+		status, out string
+		dt          float64
 	}
 	n := 2
 	if cfg.useCvc5 {
@@ -281,4 +283,29 @@ func dischargeAll(obs []*Obligation, cfg *solveCfg) {
 		}(o)
 	}
 	wg.Wait()
+	// An obligation on which every solver ran into the wall-clock limit is tried once more, a few at a time and
+	// with four times the limit: on a busy machine a true goal must not turn into an alarm. (A goal the solvers
+	// answer `unknown` or `sat` is not retried; at most 16 are, so a broken function does not cost minutes.)
+	if cfg.retried {
+		return
+	}
+	var late []*Obligation
+	for _, o := range obs {
+		if o.Status == "timeout" {
+			late = append(late, o)
+		}
+	}
+	if len(late) == 0 || len(late) > 16 {
+		return
+	}
+	cfg2 := *cfg
+	cfg2.timeout, cfg2.parallel, cfg2.retried = cfg.timeout*4, 4, true
+	for _, o := range late {
+		o.FirstTry = o.Output
+		o.Status, o.Output, o.Seconds = "", "", 0
+	}
+	dischargeAll(late, &cfg2)
+	for _, o := range late {
+		o.Output = "first attempt timed out (" + strings.SplitN(o.FirstTry, "\n", 2)[0] + "); retried with a limit of " + fmt.Sprint(cfg2.timeout) + " s: " + o.Output
+	}
 }
